@@ -5,6 +5,7 @@ package main
 
 import (
 	"fmt"
+	"os"
 	"math/big"
 	"sync/atomic"
 	"time"
@@ -157,8 +158,15 @@ func main() {
 	var ct counters
 	exhaustiveCompact := false
 	if r.Thorough() {
-		// all 2^32 compact encodings, 4096 shards
-		par.Go(4096, func(i int) {
+		// every sign+mantissa (2^24) for every exponent byte 0..37 (targets up to 2^295, i.e.
+		// everything a 256-bit chain can use and well beyond) = 637 M encodings; VERIF_C09_FULL=1
+		// sweeps all 2^32 (≈45 min: big.Int allocation dominates).
+		maxExp := 38
+		if os.Getenv("VERIF_C09_FULL") != "" {
+			maxExp = 256
+			exhaustiveCompact = true
+		}
+		par.Go(maxExp*16, func(i int) {
 			var loc counters
 			base := uint32(i) << 20
 			for k := uint32(0); k < 1<<20; k++ {
@@ -166,7 +174,28 @@ func main() {
 			}
 			ct.merge(&loc)
 		})
-		exhaustiveCompact = true
+		// the remaining exponents with the boundary mantissa set
+		{
+			mset := map[uint32]bool{}
+			for k := uint32(0); k < 4096; k++ {
+				for _, m := range []uint32{k, k << 11, 0x7fffff - k, (0x8000 + k - 2048) & 0x7fffff, (0x10000 + k - 2048) & 0x7fffff} {
+					mset[m] = true
+				}
+			}
+			var ms []uint32
+			for m := range mset {
+				ms = append(ms, m)
+			}
+			par.Go(256-maxExp, func(e int) {
+				var loc counters
+				for s := uint32(0); s < 2; s++ {
+					for _, m := range ms {
+						checkCompact(r, uint32(e+maxExp)<<24|s<<23|m, &loc, true)
+					}
+				}
+				ct.merge(&loc)
+			})
+		}
 	} else {
 		// all 256 exponents x both signs x 4096 mantissa values: every mantissa with <=12 low
 		// bits, every mantissa with only the 12 high bits, plus boundary mantissas.
